@@ -2,6 +2,7 @@
 package main
 
 import (
+	"io"
 	"bytes"
 	"encoding/hex"
 	"fmt"
@@ -266,6 +267,45 @@ func execCase(c core.Case) []string {
 			default:
 				out = append(out, "err-proof")
 			}
+		case "hasheader":
+			t, _ := strconv.Atoi(m["total"])
+			out = append(out, fmt.Sprintf("%v", ps.HasHeader(types.PartSetHeader{Total: uint32(t), Hash: unhx(m["root"])})))
+		case "hashesto":
+			out = append(out, fmt.Sprintf("%v", ps.HashesTo(unhx(m["root"]))))
+		case "read":
+			// GetReader() on a complete set, then Read with exactly these buffer sizes
+			if ps == nil {
+				out = append(out, "bad-op")
+				break
+			}
+			if !ps.IsComplete() {
+				out = append(out, "incomplete")
+				break
+			}
+			if ps.Total() == 0 {
+				out = append(out, "no-parts")
+				break
+			}
+			res := "read-panic"
+			func() {
+				defer func() { recover() }()
+				rd := ps.GetReader()
+				var chunks []string
+				for _, f := range strings.Split(m["sizes"], ",") {
+					sz, _ := strconv.Atoi(f)
+					buf := make([]byte, sz)
+					n, err := rd.Read(buf)
+					c := hx(buf[:n])
+					if err == io.EOF {
+						c += "!"
+					} else if err != nil {
+						c += "?err"
+					}
+					chunks = append(chunks, c)
+				}
+				res = strings.Join(chunks, ",")
+			}()
+			out = append(out, res)
 		case "done":
 			c := ps.IsComplete()
 			b := "?"
@@ -324,6 +364,9 @@ func oracle(c core.Case, out []string) []core.Finding {
 	var pieces [][]byte
 	genuineHdr := true
 	virtualHdr := false
+	var curTotal int
+	var curRoot []byte
+	haveHdr := false
 	for i, op := range c.Ops {
 		m := kv(op)
 		switch strings.Fields(op)[0] {
@@ -331,11 +374,74 @@ func oracle(c core.Case, out []string) []core.Finding {
 			data = unhx(m["data"])
 			k, _ := strconv.Atoi(m["psize"])
 			pieces = split(data, k)
+			curTotal, curRoot, haveHdr = len(pieces), merkle.HashFromByteSlices(pieces), true
+		case "hasheader":
+			t, _ := strconv.Atoi(m["total"])
+			same := haveHdr && t == curTotal && bytes.Equal(unhx(m["root"]), curRoot)
+			if out[i] == "true" && !same {
+				fs = append(fs, core.Finding{Fingerprint: "partset.HasHeader.accepts-other-header",
+					Desc: fmt.Sprintf("HasHeader answers true for header (total %d, root %s) on a part set whose header is (total %d, root %s): the node keeps a part set that cannot be completed with the committed block's parts", t, m["root"], curTotal, hx(curRoot))})
+			}
+			if out[i] == "false" && same {
+				fs = append(fs, core.Finding{Fingerprint: "partset.HasHeader.rejects-own-header",
+					Desc: "HasHeader answers false for the part set's own header"})
+			}
+		case "read":
+			if data == nil || !genuineHdr || out[i] == "incomplete" || out[i] == "no-parts" || out[i] == "bad-op" {
+				continue
+			}
+			if out[i] == "read-panic" {
+				fs = append(fs, core.Finding{Fingerprint: "partset.complete-but-unreadable", Desc: "reading a complete part set panics"})
+				continue
+			}
+			// the chunks, concatenated, must be the prefix of the committed bytes that was asked for,
+			// with EOF exactly when the data ran out
+			want := data
+			asked := 0
+			var got []byte
+			bad := ""
+			szs := strings.Split(m["sizes"], ",")
+			for j, ch := range strings.Split(out[i], ",") {
+				eof := strings.HasSuffix(ch, "!")
+				ch = strings.TrimSuffix(ch, "!")
+				if strings.HasSuffix(ch, "?err") {
+					bad = "read error"
+					break
+				}
+				sz, _ := strconv.Atoi(szs[j])
+				if sz == 0 {
+					continue // an empty buffer is outside io.Reader's contract
+				}
+				asked += sz
+				got = append(got, unhx(ch)...)
+				if eof != (len(want) < asked) {
+					bad = fmt.Sprintf("read %d (size %d) eof=%v although %d of %d bytes were asked for so far", j, sz, eof, asked, len(want))
+					break
+				}
+			}
+			if bad == "" {
+				lim := asked
+				if lim > len(want) {
+					lim = len(want)
+				}
+				if !bytes.Equal(got, want[:lim]) {
+					bad = fmt.Sprintf("the chunks read are %s, the committed bytes' first %d are %s", hx(got), lim, hx(want[:lim]))
+				}
+			}
+			if bad != "" {
+				fs = append(fs, core.Finding{Fingerprint: "partset.Reader.read-schedule-yields-other-bytes",
+					Desc: "reading a completed part set with buffer sizes " + m["sizes"] + ": " + bad})
+			}
 		case "hdr":
 			virtualHdr = m["virtual"] == "1"
 			// a header whose part count is not the committed tree's commits to no data: not judged
 			t, _ := strconv.Atoi(m["total"])
+			if m["items"] != "" { // the leaves this header is said to commit to (ignored by both executors)
+				pieces = unhxList(m["items"])
+				data = bytes.Join(pieces, nil)
+			}
 			genuineHdr = pieces != nil && t == len(pieces) && bytes.Equal(unhx(m["root"]), merkle.HashFromByteSlices(pieces))
+			curTotal, curRoot, haveHdr = t, unhx(m["root"]), true
 		case "add":
 			if out[i] == "added" && virtualHdr {
 				fs = append(fs, core.Finding{Fingerprint: "partset.AddPart.accepts-part-under-header-committing-to-no-data",
@@ -922,6 +1028,85 @@ func genPartSet(r *rand.Rand, emit func(core.Case), n int) {
 	}
 }
 
+
+// genLeaves: headers committing to ARBITRARY leaves (any sizes, empty pieces included — a proposer
+// need not cut with NewPartSetFromData), delivered in any order with junk; HasHeader against near
+// headers; the completed set read back with random buffer sizes.
+func genLeaves(r *rand.Rand, emit func(core.Case), n int) {
+	for c := 0; c < n; c++ {
+		k := 1 + r.Intn(7)
+		leaves := make([][]byte, k)
+		for i := range leaves {
+			switch r.Intn(4) {
+			case 0:
+				leaves[i] = []byte{}
+			default:
+				leaves[i] = rbytes(r, 1+r.Intn(5))
+			}
+		}
+		root, proofs := merkle.ProofsFromByteSlices(leaves)
+		ops := []string{fmt.Sprintf("hdr total=%d root=%s items=%s", k, hx(root), hxList(leaves))}
+		hh := func() string {
+			t, rt := k, append([]byte{}, root...)
+			switch r.Intn(5) {
+			case 0:
+				t = k + 1 + r.Intn(2)
+			case 1:
+				if k > 1 {
+					t = k - 1
+				} else {
+					t = 0
+				}
+			case 2:
+				rt[r.Intn(len(rt))] ^= 1
+			case 3:
+				rt = rt[:len(rt)-1]
+			}
+			return fmt.Sprintf("hasheader total=%d root=%s", t, hx(rt))
+		}
+		rdop := func() string {
+			m := 1 + r.Intn(8)
+			sz := make([]string, m)
+			for i := range sz {
+				v := 1 + r.Intn(6)
+				if r.Intn(12) == 0 {
+					v = 0
+				}
+				if r.Intn(10) == 0 {
+					v = 20 + r.Intn(20)
+				}
+				sz[i] = strconv.Itoa(v)
+			}
+			return "read sizes=" + strings.Join(sz, ",")
+		}
+		ops = append(ops, hh())
+		order := r.Perm(k)
+		for _, i := range order {
+			p := cloneProof(proofs[i])
+			b := leaves[i]
+			idx := i
+			if r.Intn(5) == 0 { // junk first: transplant or other bytes
+				j := r.Intn(k)
+				if r.Intn(2) == 0 {
+					ops = append(ops, addOp(j, b, p))
+				} else {
+					ops = append(ops, addOp(idx, rbytes(r, len(b)+r.Intn(2)), p))
+				}
+				mutHist["leaves-junk"]++
+			}
+			ops = append(ops, addOp(idx, b, p))
+			if r.Intn(4) == 0 {
+				ops = append(ops, hh())
+			}
+			if r.Intn(5) == 0 {
+				ops = append(ops, rdop())
+			}
+		}
+		ops = append(ops, "done", rdop(), rdop(), hh(), fmt.Sprintf("hashesto root=%s", hx(root)))
+		emit(core.Case{Kind: "partset-leaves", Ops: ops})
+	}
+}
+
 func main() {
 	core.Main(core.Prop{
 		ID:     "C10",
@@ -937,6 +1122,7 @@ func main() {
 			genConcurrent(r, emit, n/4)
 			genHuge(r, emit, n/40)
 			genVirtual(r, emit, n/8)
+			genLeaves(r, emit, n/2)
 		},
 		Exec:   execCase,
 		Oracle: oracle,
@@ -948,7 +1134,7 @@ func main() {
 			}
 			return false
 		},
-		Rule: "random trees (0..50 items over a 4-letter alphabet so equal items occur) with genuine and mutated proofs (index/total/leaf-hash/aunt flips, drops, extras, short aunts, transplants between positions and trees, empty root); random data/part sizes with parts delivered in random order with repetitions, transplants between slots, rewritten proof index/total, lying header total. Non-trivial = at least one accepted verify/add; distinct by hash of the op list",
+		Rule: "random trees (0..50 items over a 4-letter alphabet so equal items occur) with genuine and mutated proofs (index/total/leaf-hash/aunt flips, drops, extras, short aunts, transplants between positions and trees, empty root); random data/part sizes with parts delivered in random order with repetitions, transplants between slots, rewritten proof index/total, lying header total; headers committing to arbitrary leaves (empty pieces included) with HasHeader queries against near headers and the completed set read back under random buffer-size schedules. Non-trivial = at least one accepted verify/add; distinct by hash of the op list",
 		Assumptions: []string{"SHA-256 is modelled as an arbitrary function H with fixed output length; soundness theorems conclude claim-or-explicit-collision",
 			"tmdriver instantiates H with a Lean SHA-256 so roots and aunts are byte-compared with the Go code"},
 		Extra: func() map[string]interface{} { return map[string]interface{}{"mutation_histogram": mutHist} },
